@@ -41,6 +41,50 @@ def phys (T : Table) (s : Str) : Q :=
 /-- upper-casing of ASCII letters -/
 def asciiUpper (s : Str) : Str := s.map fun b => if 97 ≤ b ∧ b ≤ 122 then b - 32 else b
 
+/-- a unit whose factor is a positive rational -/
+def PosU (u : MUnit) : Prop := 0 < u.fnum ∧ 0 < u.fden
+
+/-- unit `u` keeps the magnitude `|m|` (in reference units) at or above one: `1 ≤ |m| / f_u` -/
+def Qual (m : Q) (u : MUnit) : Prop := Q.le Q.one (m.abs.div u.factor)
+
+
+/-! ## notions used in the statements about `CommonValueType` / `ScaleProfiles` -/
+
+/-- at most one family of the table recognises a given string -/
+def UniqueFamily (T : Table) : Prop :=
+  ∀ s F G u w, F ∈ T → G ∈ T → sniffUnit F s = some u → sniffUnit G s = some w → F = G
+
+/-- two unit strings that `compatibleValueTypes` accepts: the same string, or two units of one family -/
+def CompatU (T : Table) (a b : Str) : Prop :=
+  a = b ∨ ∃ F ∈ T, (∃ u, sniffUnit F a = some u) ∧ (∃ w, sniffUnit F b = some w)
+
+namespace Q
+def add (a b : Q) : Q := ⟨a.num * b.den + b.num * a.den, a.den * b.den⟩
+def sum : List Q → Q
+  | [] => zero
+  | x :: xs => add x (sum xs)
+end Q
+
+/-- total of column `i` of a sample matrix -/
+def colTotal (rows : List (List Int)) (i : Nat) : Int := (rows.filterMap (·[i]?)).sum
+def colTotalQ (rows : List (List Q)) (i : Nat) : Q := Q.sum (rows.filterMap (·[i]?))
+
+/-- what `ScaleProfiles` does to one profile `p`, giving `o`: the sample types keep their Type,
+every ratio is a proper rational whose product with the physical size of the new unit is the
+physical size of the old unit, every value is multiplied by the ratio of its column, and the
+period is converted likewise -/
+def Harmonised (T : Table) (p : MProf) (o : MProfOut) : Prop :=
+  o.sampleTypes.length = p.sampleTypes.length ∧ o.ratios.length = p.sampleTypes.length ∧
+  (∀ i (_ : i < p.sampleTypes.length) (_ : i < o.sampleTypes.length) (_ : i < o.ratios.length),
+    o.sampleTypes[i].typ = p.sampleTypes[i].typ ∧ 0 < o.ratios[i].den ∧
+    Q.eqv (o.ratios[i].mul (phys T o.sampleTypes[i].unit)) (phys T p.sampleTypes[i].unit)) ∧
+  o.samples = p.samples.map (fun s => List.zipWith (fun v r => (Q.ofInt v).mul r) s o.ratios) ∧
+  (match p.periodType, o.periodType with
+    | some pt, some pt' => pt'.typ = pt.typ ∧
+        Q.eqv (o.period.mul (phys T pt'.unit)) ((Q.ofInt p.period).mul (phys T pt.unit))
+    | none, none => o.period = Q.ofInt p.period
+    | _, _ => False)
+
 /-! ## Boolean checkers -/
 
 def posQ (q : Q) : Bool := decide (0 < q.num) && decide (0 < q.den)
@@ -57,13 +101,16 @@ def pairwiseB {α} (r : α → α → Bool) : List α → Bool
 def factorsDistinctB (T : Table) : Bool :=
   T.all fun F => pairwiseB (fun u w => !decide (Q.eqv u.factor w.factor)) F.units
 
-/-- all aliases of the table, tagged with (family index, unit index) -/
-def taggedAliases (T : Table) : List ((Nat × Nat) × Str) :=
-  T.zipIdx.flatMap fun (F, i) => F.units.zipIdx.flatMap fun (u, j) => u.aliases.map fun a => ((i, j), a)
+/-- all aliases of a family -/
+def allAliases (F : Family) : List Str := F.units.flatMap (·.aliases)
 
-/-- no alias, and no plural of an alias, belongs to two different units (of any families) -/
+/-- two alias strings can never be taken for one another by `sniffUnit` (equal, or one the
+plural of the other) -/
+def aliasClash (a b : Str) : Bool := a == b || a == b ++ [115] || b == a ++ [115]
+
+/-- no alias, and no plural of an alias, of one family is an alias of another family -/
 def aliasesDisjointB (T : Table) : Bool :=
-  pairwiseB (fun x y => x.1 == y.1 || (x.2 != y.2 && x.2 != y.2 ++ [115] && y.2 != x.2 ++ [115])) (taggedAliases T)
+  pairwiseB (fun F G => (allAliases F).all fun a => (allAliases G).all fun b => !aliasClash a b) T
 
 /-- aliases are written in lower case (they are compared with lower-cased input) -/
 def aliasesLowerB (T : Table) : Bool :=
@@ -106,11 +153,11 @@ def sameSet (a b : List Str) : Bool := a.all b.contains && b.all a.contains
 /-- table unit `u` is the dictionary unit `s` (printed name, set of names) -/
 def unitMatches (u : MUnit) (s : Spec.Units.SUnit) : Bool := u.name == s.display && sameSet u.aliases s.names
 
-/-- family `F` of the table is family `S` of the dictionary: same default, the same units (in any
-order), and all size RATIOS agree (exactly for integers below 2^51, else within 2^-51: the
-table holds float64 values of decimal fractions) -/
+/-- family `F` of the table is family `S` of the dictionary: the same units (in any order), and
+all size RATIOS agree (exactly for integers below 2^51, else within 2^-51: the table holds
+float64 values of decimal fractions).  Which unit is the family's default is not compared: the
+property does not promise it (`default_unit_in_family` says it is one of the family's units). -/
 def familyMatches (F : Family) (S : Spec.Units.SFamily) : Bool :=
-  F.default.name == S.default &&
   F.units.length == S.units.length &&
   (F.units.all fun u => S.units.any fun s => unitMatches u s) &&
   (S.units.all fun s => F.units.any fun u => unitMatches u s) &&
